@@ -452,3 +452,60 @@ def dispatch_total_rule(ctx: Ctx, chk, which: str = "incoming", rule: str = "DIS
             cond = f" (when `{norm(tests[-1].ast)[:50]}`)" if tests else ""
             chk.refute(rule, key, f"{f.qualname} can return `{norm(v)[:60] if v is not None else None}`{cond} instead of the handler of the protocol's table: such messages bypass registry updates, replies, the missing-node handling and the version query", ctx.loc(f, x.ast))
     chk.floor(rule, "return statements of the handler getter", n, 1)
+
+
+def write_sync_rule(ctx: Ctx, chk, rule: str = "WRITE-SYNC") -> None:
+    """Every Transport.write of the package performs its I/O before it returns and lets the failure out."""
+    chk.rule(rule, "a transport write is finished - or has failed - when it returns: in every implementation of Transport.write and the methods of its class that it calls, nothing is started as an independent task (create_task / ensure_future / run_in_executor not awaited in place) and no except clause / suppress around the I/O catches a transport error or OSError without raising; otherwise write() returns normally for a message that never reached the peer, the caller (send, the flush) removes it from its buffer and the failure is reported - if at all - to somebody else, later")
+    from .c16 import TASK_MAKERS
+    from .common import callee_names
+
+    I = ctx.I
+    base = ctx.func("aiomysensors.transport.Transport.write")
+    n = 0
+    for w in I.implementations(base):
+        # the methods of the transport class reachable from write (self.x(...) calls), write itself first
+        funcs = [w]
+        work = [w]
+        while work:
+            f = work.pop()
+            for c in ctx.own_nodes(f):
+                if isinstance(c, ast.Call) and isinstance(c.func, ast.Attribute) and isinstance(c.func.value, ast.Name) and c.func.value.id in ("self", "cls") and w.cls is not None:
+                    for k in [w.cls] + list(ctx.prog.subclasses(w.cls)):
+                        m = k.find_method(c.func.attr)
+                        if m is not None and m not in funcs and not m.is_abstract() and len(funcs) < 12:
+                            funcs.append(m)
+                            work.append(m)
+                # a coroutine of the class handed to a task maker: create_task(self._publish_x(...))
+        for f in funcs:
+            for c in ctx.own_nodes(f):
+                if not isinstance(c, ast.Call):
+                    continue
+                kind = next((TASK_MAKERS[x] for x in callee_names(ctx, f, c) if x in TASK_MAKERS), None) if isinstance(c.func, (ast.Name, ast.Attribute)) else None
+                if kind is not None and kind != "shield":
+                    n += 1
+                    chk.instance(rule)
+                    key = f"{w.fq}::{f.name}::{norm(c)[:60]}::detached"
+                    if isinstance(ctx.prog.parents.get(c), ast.Await):
+                        chk.ok(rule, key, f"{kind} awaited in place", ctx.loc(f, c), sample=False)
+                    else:
+                        chk.refute(rule, key, f"`{norm(c)[:70]}` in {f.qualname} ({kind}) lets the I/O of a write run on after write() has returned: the caller treats the message as delivered (the flush forgets it), a failure can no longer be raised to the caller of send / listen that caused the write", ctx.loc(f, c))
+            for h in [x for x in ctx.own_nodes(f) if isinstance(x, ast.ExceptHandler)]:
+                tr = ctx.prog.parents.get(h)
+                if not isinstance(tr, ast.Try) or not any(isinstance(x, ast.Await) for b in tr.body for x in ast.walk(b)):
+                    continue
+                fr = Frame(Callee(f, f.cls, ()), None)
+                eea = ctx.eea()
+                elts = h.type.elts if isinstance(h.type, ast.Tuple) else [h.type] if h.type is not None else []
+                names = [eea.exc_class_of(x, fr) for x in elts] or ["builtins.BaseException"]
+                catches = any(nm and (eea.issub("aiomysensors.exceptions.TransportFailedError", nm) or eea.issub("builtins.ConnectionResetError", nm) or eea.issub("aiomqtt.exceptions.MqttError", nm)) for nm in names)
+                if not catches:
+                    continue
+                n += 1
+                chk.instance(rule)
+                key = f"{w.fq}::{f.name}::except {norm(h.type) if h.type is not None else ''}"
+                if _handler_always_raises(h):
+                    chk.ok(rule, key, "the failure is raised (translated) to the caller", ctx.loc(f, h), sample=n <= 2)
+                else:
+                    chk.refute(rule, key, f"`except {norm(h.type) if h.type is not None else ''}` in {f.qualname} takes the failure of the write's I/O and does not raise: write() returns normally although the message was not delivered", ctx.loc(f, h))
+    chk.floor(rule, "task-starting calls and I/O handlers in transport writes", n, 2)
